@@ -235,4 +235,34 @@ def poolStep (s : DState) (pl : Pool) (r : Nat → Rat) : List Nat :=
   else if pl.src.isEmpty || pl.dst.isEmpty then []
   else pl.dst.filter (fun u => Gen.bernoulliAccept (r u) (poolP s pl u))
 
+/-! ### `SexualNetwork.net_beta` for arbitrary `acts·dt` (IEEE doubles, same source expression) -/
+
+/-- the source expression of `SexualNetwork.net_beta`, evaluated in doubles with `Float.pow` -/
+def netBetaSexualF (edgeBeta diseaseBeta acts dt : Float) : Float :=
+  Gen.netBetaSexualG Float.pow edgeBeta diseaseBeta acts dt
+
+/-! ### `set_outcomes` and the infection log -/
+
+/-- new cases handed to `set_congenital` (age ≤ 0 at the time of the step) -/
+def congenitalCases (age : Nat → Rat) (evs : List Event) : List Event :=
+  evs.filter (fun e => Gen.isCongenital (age e.target))
+
+/-- new cases handed to `set_prognoses` -/
+def prognosisCases (age : Nat → Rat) (evs : List Event) : List Event :=
+  evs.filter (fun e => !Gen.isCongenital (age e.target))
+
+structure LogEntry where
+  source : Nat
+  target : Nat
+  time : Rat
+  deriving DecidableEq
+
+/-- `Disease.set_prognoses` with `pars.log`: `log.add_entries(uids, sources, now)` appends one edge source→target keyed by the time -/
+def logEntries (now : Rat) (evs : List Event) : List LogEntry :=
+  evs.map (fun e => ⟨e.source, e.target, now⟩)
+
+/-- what one `Infection.step` writes to the log of a disease whose `set_prognoses` logs and whose `set_congenital` does not -/
+def stepLog (now : Rat) (age : Nat → Rat) (s : DState) (nets : List Net) : List LogEntry :=
+  logEntries now (prognosisCases age (infect s nets))
+
 end StarsimModel.Transmission
